@@ -104,7 +104,8 @@ class DocIndex:
 class Model:
     def __init__(self, universe):
         self.u = universe
-        self.docs = universe['lexicons']
+        self.docs = dict(universe['lexicons'])   # spec -> current release of that lexicon
+        self.alt = dict(universe.get('alt') or {})
         self.idx = {sp: DocIndex(d) for sp, d in self.docs.items()}
         self.installed: list[str] = []          # add order == rowid order
         self.ilis: dict = {}                    # id -> {status, definition, meta}
@@ -116,7 +117,7 @@ class Model:
 
     def copy(self):
         m = Model.__new__(Model)
-        m.u, m.docs, m.idx = self.u, self.docs, self.idx
+        m.u, m.docs, m.idx, m.alt = self.u, self.docs, self.idx, self.alt
         m.installed = list(self.installed)
         m.ilis = {k: dict(v) for k, v in self.ilis.items()}
         m.reltypes = set(self.reltypes)
@@ -126,6 +127,15 @@ class Model:
         return m
 
     # -- mutations ------------------------------------------------------------------------
+    def rerelease(self, sp):
+        """The publisher replaces the content behind an id:version that is not installed."""
+        if sp not in self.alt or sp in self.installed:
+            return False
+        self.docs[sp], self.alt[sp] = self.alt[sp], self.docs[sp]
+        self.idx[sp] = DocIndex(self.docs[sp])
+        self.__dict__.pop('_memo', None)
+        return True
+
     def plan_add(self, specs):
         """Which lexicons of a resource get added (documented skip rules; decided before
         anything is added)."""
